@@ -11,6 +11,7 @@ META = {
     "level_text": "Machine-checked proofs (Coq 8.16, axiom-free) for all terms and all tables of the Gallina model: canonicalization = resolve through the table, number the unbound classes by first occurrence, replace; equal canonical forms iff universe/kind-preserving injective renaming; instantiate-then-canonicalize is the identity on canonical forms; the universe map is strictly monotone in both directions and map_from_canonical undoes u_canonicalize for all three placeholder kinds. The model is tied to /repo on every run: a script builds a real InferenceTable (universes, variables, prior relate calls), the table is dumped through read-only probes, and canonicalize / u_canonicalize / map_from_canonical / instantiate_canonical+canonicalize / the universe map are compared with the model evaluated in Coq; independently the property is evaluated on the implementation alone.",
     "level_note": "Trusted: Coq kernel; hand-written models coq/Infer/{Canon,UCanon,Invert}.v (tied by correspondence on generated cases of bounded size only); harness conversion sexp<->chalk_ir and the table dump (hook H5 verif_universe_of_var + public probe_var / inference_var_root). Const types are opaque in the model (usize in ChalkIr). Fuel: statements are about runs that do not exhaust it (the check uses fuel 64 >> number of variables). canon_iff_renaming '=>' needs inference nodes used at one kind each (well_kinded_infer); the generator guarantees it.",
     "design_ref": "DESIGN.md section 4 C16",
+    "bins": ["canon"],
     "assumptions": ["const types are closed (usize), as produced by ChalkIr lowering; the model does not fold them",
                     "panics are compared as panic/no-panic only",
                     "fresh-variable numbering is never compared: instantiate_canonical is observed only through the re-canonicalized value"],
